@@ -1203,7 +1203,8 @@ class Standard(Output):
                     yy[i, j] = np.nansum(R[:, j] == i)
                 yy[-1, j] = np.nansum(R[:, j] == -1)
             w = 0.8
-            yy = yy / num_valid
+            if num_valid > 0:
+                yy = yy / num_valid
             accum = np.cumsum(yy, axis=0)
             labels = labels + ["None"]
 
